@@ -1190,7 +1190,8 @@ def evaluate__xml_to_json(self: XPathFunction, context: ta.ContextType = None) \
                     else:
                         number = cast(float, DoubleProxy(value))
                 except ValueError:
-                    chunks.append('nan')
+                    msg = f'invalid number value {value!r}'
+                    raise self.error('FOJS0006', msg) from None
                 else:
                     if math.isnan(number) or math.isinf(number):
                         msg = f'invalid number value {value!r}'
